@@ -960,6 +960,20 @@ func ruleC06h(c *Ctx) []*report.Result {
 		if okAll {
 			r.Ok(construct + ": every path returns the wrapper around the parameter")
 		}
+		// which wrapper: the constructor whose result type is the SafeValue
+		// interface makes the safe wrapper, the other one the unsafe wrapper
+		for _, ri := range rets {
+			if ri.mi == nil {
+				continue
+			}
+			k := c.classifyType(ri.mi.X.Type())
+			wantSafe := c.classifyType(fn.Signature.Results().At(0).Type()) == "safevalue"
+			if (k == "safewrap") != wantSafe {
+				r.Fail(construct+" / wrapper of its side", c.P.Pos(ri.ret.Pos()), "the constructor returns the wrapper of the other side: the declaration is inverted", nil, "")
+			} else {
+				r.Ok(construct + ": the wrapper of its side")
+			}
+		}
 	}
 	if n < 2 {
 		r.Undecide(fmt.Sprintf("found %d wrapper constructors (want Safe and Unsafe)", n))
